@@ -53,7 +53,10 @@ class World:
         pat = rng.choice(["s3:getobject*", "ec2:describe*", "iam:Pass?ole", "sqs:*"])
         hit = next((a for a in __import__("pycfmodel.cloudformation_actions", fromlist=["x"]).CLOUDFORMATION_ACTIONS if __import__("re").fullmatch(pat.replace("*", ".*").replace("?", "."), a, 2)), pat)
         self.templates.append({"Resources": {"Ov": {"Type": "AWS::IAM::ManagedPolicy", "Properties": {"PolicyDocument": {"Statement": [
-            {"Effect": "Allow", "Action": pat, "Resource": "*", "Condition": {"StringLike": {"aws:PrincipalTag/op": pat}}}]}}}}})
+            {"Effect": "Allow", "Action": pat, "Resource": "*", "Condition": {"StringLike": {"aws:PrincipalTag/op": pat}}},
+            # Action (a list) and NotAction together, Resource and NotResource together: queries that merge the two lists
+            {"Effect": "Allow", "Action": ["s3:GetObject", "s3:ListBucket"], "NotAction": ["iam:*", "kms:Decrypt"], "Resource": ["arn:aws:s3:::a"], "NotResource": ["arn:aws:s3:::b"],
+             "Principal": {"AWS": ["arn:aws:iam::123456789012:root"]}, "NotPrincipal": {"AWS": ["arn:aws:iam::111122223333:user/alice"]}}]}}}}})
         from pycfmodel.model.resources.properties.statement_condition import StatementCondition as _SC
 
         self.conds.append(_SC.model_validate({"StringLike": {"aws:PrincipalTag/op": pat}}))
@@ -151,7 +154,14 @@ def do_call(w, call):
         for name, d in docs_of(m):
             pd = d.policy_document
             try:
-                per_doc.append((name, d.name, sorted(pd.get_allowed_actions()), sorted(pd.get_iam_actions()), sorted(str(p) for p in pd.allowed_principals_with(re.compile(".*"))),  # built from a set: its order is the hash seed's
+                every = re.compile(".*")
+                per_stmt = []
+                for st in pd.statement_as_list():
+                    # every read-only query of a statement, twice: a query must not change what the next one returns
+                    for _ in range(2):
+                        per_stmt.append((sorted(map(str, st.get_action_list())), sorted(map(str, st.get_resource_list())), sorted(map(str, st.actions_with(every))),
+                                         sorted(map(str, st.resources_with(every))), sorted(map(str, st.principals_with(every))), sorted(map(str, st.non_whitelisted_principals([])))))
+                per_doc.append((name, d.name, per_stmt, len(pd.allowed_actions_with(every)), sorted(map(str, pd.non_whitelisted_allowed_principals([]))), sorted(pd.get_allowed_actions()), sorted(pd.get_iam_actions()), sorted(str(p) for p in pd.allowed_principals_with(re.compile(".*"))),  # built from a set: its order is the hash seed's
                             len(pd.statements_with(re.compile(".*"))), [sorted(map(str, s.get_principal_list())) for s in pd.statement_as_list()]))
             except Exception as e:
                 per_doc.append((name, "raises", common.exc_class(e)))
